@@ -609,6 +609,23 @@ HANDWRITTEN = {
 
     return "C", "D", "E"
 ''',
+    "adjoint_of_identity_start": '''def program():
+    with "U":
+        start = 1
+        "A"
+
+    with "Ud":
+        "U".adj
+
+    with "W":
+        start = 0
+        "Ud @ U" + "A" - "Ud" / 2
+
+    with "Ud @ U":
+        pass
+
+    return "Ud", "W"
+''',
     "recurrence": '''def program():
     with "W":
         start = 0
